@@ -214,7 +214,7 @@ func traceConcStore(t *testing.T, o opts) {
 					hmu.Unlock()
 				}
 			}()
-			deadline := time.Now().Add(2 * time.Second)
+			deadline := time.Now().Add(10 * time.Second)
 			for g.waiting.Load() == 0 && time.Now().Before(deadline) {
 				time.Sleep(time.Millisecond)
 			}
@@ -225,11 +225,18 @@ func traceConcStore(t *testing.T, o opts) {
 				for i := range counters {
 					before[i] = counters[i].Load()
 				}
-				time.Sleep(20 * time.Millisecond)
-				ok := true
-				for i := range counters {
-					if counters[i].Load() < before[i]+5 {
-						ok = false
+				// wait until every reader has completed a few more reads; a reader that is blocked
+				// behind the held request makes no progress at all, however long we wait (the
+				// generous limit keeps a loaded machine from looking like a blocked reader)
+				limit := time.Now().Add(10 * time.Second)
+				ok := false
+				for !ok && time.Now().Before(limit) {
+					time.Sleep(2 * time.Millisecond)
+					ok = true
+					for i := range counters {
+						if counters[i].Load() < before[i]+3 {
+							ok = false
+						}
 					}
 				}
 				if !ok {
@@ -251,7 +258,9 @@ func traceConcStore(t *testing.T, o opts) {
 		}
 		st.Close()
 		afterBefore := reads.Load()
-		time.Sleep(10 * time.Millisecond)
+		for lim := time.Now().Add(10 * time.Second); reads.Load() < afterBefore+int64(nreaders) && time.Now().Before(lim); {
+			time.Sleep(time.Millisecond)
+		}
 		afterClose := reads.Load() - afterBefore
 		close(stop)
 		wg.Wait()
